@@ -190,3 +190,17 @@ Proof.
     specialize (Hi (fun a0 Ha0 => match body a0 as b return (match b with inl a' => I a' /\ 0 <= m a' < m a0 | inr r0 => Q r0 end -> match b with inl a' => I a' | inr r0 => Q r0 end) with inl _ => fun H => proj1 H | inr _ => fun H => H end (Hb a0 Ha0)) (Pos.to_nat p) a Ha).
     rewrite Hr in Hi. exact Hi.
 Qed.
+
+Lemma run_loop_eq {A B} (body : A -> A + res B) bound a n r :
+  loop_nat n body a = inr r -> Z.of_nat n <= bound -> (0 < n)%nat -> run_loop bound body a = r.
+Proof.
+  intros H Hb Hn. unfold run_loop. destruct bound as [|p|p]; try lia.
+  rewrite loop_pos_nat. replace (Pos.to_nat p) with (n + (Pos.to_nat p - n))%nat by lia.
+  now rewrite (loop_nat_more body n _ a r H).
+Qed.
+
+Lemma firstn_succ_nth' (l : list Z) (n : nat) : (n < length l)%nat -> firstn (S n) l = firstn n l ++ [nth n l 0].
+Proof.
+  revert l; induction n; intros [|x l] H; cbn [length] in H; try lia; [reflexivity|].
+  cbn [firstn nth app]. f_equal. apply IHn. lia.
+Qed.
